@@ -240,6 +240,74 @@ theorem stored_value_accepted (row : TypeRow) (sc : Schema F) (ops : List (CellO
   | err => left; rfl
   | val v => rw [hc] at inv; exact inv
 
+/-! ### the run-time judges accept every output of the model -/
+
+/-- the schema the factory builds: for a denoted declaration in strict mode, and the bare class
+    (+ timezone) check in non-strict mode -/
+def modelSchema (strict : Bool) (ty : PyType) (tz : Bool) (dv : DeclVals F) : Schema F :=
+  if strict then { ty := ty, requireTz := tz, allowed := dv.allowed, min := dv.min, max := dv.max }
+  else { ty := ty, requireTz := tz, allowed := none, min := none, max := none }
+
+/-- **decl.** a declaration whose texts denote values (no default) yields a schema in either mode —
+    the one `modelSchema` describes — so `declOk` holds of the model -/
+theorem decl_judged (strict : Bool) (row : TypeRow) (d : Decl) (dv : DeclVals F)
+    (hd : Denotes (coercePython fo table row) d dv) (hdef : d.default = none) :
+    mkSchema fo table row strict d = .ok (modelSchema strict row.ty row.requireTz dv)
+    ∧ declOk (match mkSchema fo table row strict d with | .ok _ => .ok () | .error e => .error e) = true := by
+  have h : mkSchema fo table row strict d = .ok (modelSchema strict row.ty row.requireTz dv) := by
+    cases strict with
+    | true => exact mkSchema_denotes fo table row d dv hd hdef
+    | false => simp [mkSchema, schemaAllowed, schemaRange, schemaDefault, hdef, nonEmpty, modelSchema]
+  exact ⟨h, by rw [h]; rfl⟩
+
+/-- **validate.** `validate_value` of the model satisfies `validateJ` -/
+theorem validate_judged (strict : Bool) (ty : PyType) (tz : Bool) (dv : DeclVals F) (v : Val F) :
+    validateJ fo strict ty tz dv v
+      (if (modelSchema strict ty tz dv).check fo v then .ok else .upnpValueError) = true := by
+  cases strict with
+  | false => rfl
+  | true =>
+    simp only [validateJ, Bool.not_true, Bool.false_or, validateOk, modelSchema, if_true]
+    rw [check_eq_accept]
+    cases accept fo ty tz dv v <;> simp
+
+/-- whatever the schema, `sv.value = v` stores `v` exactly when it does not raise -/
+theorem setKeeps_setValue (sc : Schema F) (c : Cell F) (v : Val F) :
+    setKeeps v (setValue fo sc c v).2 c.read (setValue fo sc c v).1.read = true := by
+  unfold setKeeps setValue
+  by_cases h : sc.check fo v = true <;> simp [h, Cell.read]
+
+/-- **set.** `sv.value = v` of the model satisfies `setJ` in both modes -/
+theorem set_judged (strict : Bool) (ty : PyType) (tz : Bool) (dv : DeclVals F) (c : Cell F) (v : Val F) :
+    let sc := modelSchema strict ty tz dv
+    setJ fo strict ty tz dv v (setValue fo sc c v).2 c.read (setValue fo sc c v).1.read = true := by
+  intro sc
+  cases strict with
+  | true => exact set_spec fo ty tz dv c v
+  | false =>
+    simp only [setJ, Bool.false_eq_true, if_false]
+    exact setKeeps_setValue fo sc c v
+
+/-- **upnp_value.** `sv.upnp_value = s` of the model satisfies `setUpnpJ` in both modes -/
+theorem set_upnp_judged (strict : Bool) (row : TypeRow) (dv : DeclVals F) (c : Cell F) (s : Str) :
+    let sc := modelSchema strict row.ty row.requireTz dv
+    setUpnpJ fo strict row.ty row.requireTz dv (coercePython fo table row s) (setUpnpValue fo table row sc c s).2 c.read
+      (setUpnpValue fo table row sc c s).1.read = true := by
+  intro sc
+  cases strict with
+  | true => exact set_upnp_spec fo row dv c s
+  | false =>
+    simp only [setUpnpJ, Bool.false_eq_true, if_false, setUpnpValue]
+    cases hcv : coercePython fo table row s with
+    | ok v => exact setKeeps_setValue fo sc c v
+    | error e => cases e <;> simp [Cell.read]
+
+/-- **spell / in.** every conversion of the model satisfies `spellJ` (and `inOk`, theorem `in_total`) -/
+theorem spell_judged (hf : fo.RoundTrips) (row : TypeRow) (hrow : row ∈ rows) (sp : Spelling) (v : Val F) (s : Str) :
+    spellJ fo row.ty sp v s (coercePython fo table row s) = true := by
+  simp only [spellJ, Bool.and_eq_true]
+  exact ⟨spelling_judged fo hf row hrow sp v s, in_total fo row s⟩
+
 /-! ### non-vacuity -/
 
 /-- a concrete float-free instance: the `dateTime.tz` row, a declared range, a history with an
